@@ -91,6 +91,14 @@ static void build_alphabet(void) {
             }
         }
     }
+    if (vh_thorough) {
+        /* every biased exponent 0..2047 x the rounding-sensitive mantissas of each precision */
+        for (int e = 0; e < 2048; e++) {
+            for (size_t m = 0; m < nm; m += 3) {
+                push(mk(e & 1, e, ms[m]));
+            }
+        }
+    }
     static const double nice[] = {1.9999999999, 123.456, 25.34, 0.1, 1e-300, 1e300, 1e-308, 1.7976931348623157e308, 3.141592653589793, -2.718281828459045, 65504.0, 1e-5};
     for (size_t i = 0; i < sizeof nice / sizeof *nice; i++) {
         push(nice[i]);
